@@ -26,8 +26,11 @@ IsPermutation(in, out) ==
   /\ Len(in) = Len(out)
   /\ \A x \in LRng(in) \cup LRng(out) : LCount(x, in) = LCount(x, out)
 
+\* x strictly precedes y under the observed compare, asked in either argument
+\* order (the same thing for a lawful Compare; an asymmetric one must not hide it)
+Precedes(cmp(_, _), x, y) == cmp(x, y) \notin {0, 1} \/ cmp(y, x) \notin {0, -1}
 \* adjacent pairs non-decreasing under the observed compare
-SortedBy(cmp(_, _), out) == \A k \in 1..(Len(out) - 1) : cmp(out[k], out[k + 1]) \in {-1, 0}
+SortedBy(cmp(_, _), out) == \A k \in 1..(Len(out) - 1) : ~Precedes(cmp, out[k + 1], out[k])
 
 \* sub is s with some positions dropped (order kept)
 RECURSIVE SubseqFrom(_, _, _, _)
@@ -60,9 +63,9 @@ KeysAllOK(keq(_, _), ks, out) == Covers(keq, ks, out)
 MinEmptyOK(in, def, out)     == in = <<>> => out = def
 MinElemOK(in, out)           == in # <<>> => out \in LRng(in)
 \* no element of the list strictly precedes the result
-MinLeastOK(cmp(_, _), in, out) == \A k \in DOMAIN in : cmp(in[k], out) \in {0, 1}
+MinLeastOK(cmp(_, _), in, out) == \A k \in DOMAIN in : ~Precedes(cmp, in[k], out)
 \* no element of the list strictly follows the result
-MaxGreatestOK(cmp(_, _), in, out) == \A k \in DOMAIN in : cmp(in[k], out) \in {0, -1}
+MaxGreatestOK(cmp(_, _), in, out) == \A k \in DOMAIN in : ~Precedes(cmp, out, in[k])
 
 -----------------------------------------------------------------------------
 (* C14                                                                     *)
